@@ -18,6 +18,12 @@ COMPUTABLE = "isCompileTimeComputable"
 LVALUE = "isModifiableLValue"
 
 
+def G_strip(e):
+    while isinstance(e, dict) and e.get("k") in ("cast", "paren", "materialize", "bind"):
+        e = e.get("e")
+    return e if isinstance(e, dict) else {}
+
+
 def _fn(F, q):
     return F.fn("UTAP::TypeChecker::" + q)
 
@@ -688,15 +694,84 @@ def _c12_rest(chk, F, rid):
                     ("UTAP::StatementBuilder::iteration_begin", "iteration variable"),
                     ("UTAP::DocumentBuilder::addSelectSymbolToFrame", "select binder")):
         b = F.fn(q)
-        forced = False
-        for n in walk(b["body"]):
-            if n.get("k") == "if":
-                cs = [short(c) for c in calls(n["c"])]
-                if any("is(CONSTANT)" in c.replace("Constants::", "") for c in cs) and \
-                        any(c.get("name") == "create_prefix" and "CONSTANT" in short(c) for c in calls(n["then"])):
-                    forced = True
-        # the symbol is added after the forcing statement with that very variable
+
+        def is_const_test(c):
+            """X for a condition `X.is(CONSTANT)`, ("!", X) for its negation"""
+            c = G_strip(c)
+            neg = False
+            while isinstance(c, dict) and c.get("k") == "un" and c.get("op") == "!":
+                c, neg = G_strip(c["e"]), not neg
+            if isinstance(c, dict) and c.get("k") == "call" and c.get("name") == "is" and c.get("args") and \
+                    G_strip(c["args"][0]).get("name") == "CONSTANT" and c.get("recv") is not None:
+                return ("!" if neg else "", short(G_strip(c["recv"])))
+            return None
+
+        def const_forced(fn_, e, depth=0):
+            """the value of e is a CONSTANT-prefixed type on every path"""
+            e = G_strip(e)
+            if not isinstance(e, dict) or depth > 5:
+                return False
+            if e.get("k") == "construct" and len(e.get("args", [])) == 1:
+                return const_forced(fn_, e["args"][0], depth + 1)
+            if e.get("k") == "call" and e.get("name") == "create_prefix" and e.get("args") and \
+                    G_strip(e["args"][0]).get("name") == "CONSTANT":
+                return True
+            if e.get("k") == "cond":
+                t = is_const_test(e["c"])
+                if t is not None:
+                    def bare(x):
+                        x = G_strip(x)
+                        while x.get("k") == "construct" and len(x.get("args", [])) == 1:
+                            x = G_strip(x["args"][0])
+                        return short(x)
+                    same_a, same_b = bare(e["a"]) == t[1], bare(e["b"]) == t[1]
+                    if t[0] == "":      # X.is(CONSTANT) ? X : forced
+                        return (same_a or const_forced(fn_, e["a"], depth + 1)) and const_forced(fn_, e["b"], depth + 1)
+                    return const_forced(fn_, e["a"], depth + 1) and (same_b or const_forced(fn_, e["b"], depth + 1))
+                return const_forced(fn_, e["a"], depth + 1) and const_forced(fn_, e["b"], depth + 1)
+            if e.get("k") == "call" and e.get("fn") and e.get("name") != "create_prefix":
+                # a helper that hands out the type: every value it returns is forced
+                cls_ = (fn_.get("cls") or "")
+                cands = list(F.fns(e["fn"]))
+                if not cands and cls_:
+                    m_ = F.resolve_method(cls_, e.get("name"))
+                    cands = [m_] if m_ else []
+                for g in cands:
+                    if g.get("body") is None:
+                        continue
+                    rets = [r for r in walk(g["body"]) if r.get("k") == "return" and r.get("e") is not None]
+                    if rets and all(const_forced(g, r["e"], depth + 1) for r in rets):
+                        return True
+                return False
+            if e.get("k") == "ref" and e.get("dk") == "local":
+                name = e.get("name")
+                for d in walk(fn_["body"]):
+                    if d.get("k") == "decl":
+                        for v in d.get("vars", []):
+                            if v.get("name") == name and v.get("init") is not None and const_forced(fn_, v["init"], depth + 1):
+                                return True
+                    # `if (!t.is(CONSTANT)) t = t.create_prefix(CONSTANT);`
+                    if d.get("k") == "if" and d.get("else") is None:
+                        t = is_const_test(d["c"])
+                        if t is not None and t[0] == "!" and t[1] == name:
+                            for x in walk(d["then"]):
+                                lhs = rhs = None
+                                if x.get("k") == "bin" and x.get("op") == "=":
+                                    lhs, rhs = x["lhs"], x["rhs"]
+                                elif x.get("k") == "call" and x.get("ck") == "op" and x.get("op") == "=" and x.get("recv") is not None and x.get("args"):
+                                    lhs, rhs = x["recv"], x["args"][0]
+                                if lhs is not None and short(G_strip(lhs)) == name and const_forced(fn_, rhs, depth + 1):
+                                    return True
+                return False
+            return False
+        # the symbol is added with a type that is const on every path
         adds = [c for c in calls(b["body"]) if c.get("name") in ("add_symbol", "addVariable")]
+        forced = False
+        for c in adds:
+            targs = [a for a in c.get("args", []) if "type_t" in (a.get("t") or "") or
+                     (G_strip(a).get("k") == "ref" and "type_t" in (G_strip(a).get("t") or ""))]
+            if targs and const_forced(b, targs[0]):
+                forced = True
         chk.ob(rid, "binder-const|%s" % q.split("::")[-1], forced and bool(adds),
                "%s does not force the type of the %s to CONSTANT before adding the symbol" % (q, what),
                "%s:%s" % (b["file"], b["line"]))
